@@ -318,6 +318,28 @@ impl<'tcx> Cx<'tcx> {
             o.set("parent_fn", J::s(&self.key(tcx.typeck_root_def_id(d))));
         }
         o.set("name", J::s(&tcx.opt_item_name(d).map(|s| s.to_string()).unwrap_or_default()));
+        // generic parameter names (types and consts, parents first; lifetimes skipped) - matches the order of `gargs` at call sites
+        {
+            let mut names: Vec<J> = vec![];
+            let mut stack = vec![];
+            let mut g = tcx.generics_of(d);
+            loop {
+                stack.push(g);
+                match g.parent {
+                    Some(p) => g = tcx.generics_of(p),
+                    None => break,
+                }
+            }
+            for g in stack.iter().rev() {
+                for p in &g.own_params {
+                    match p.kind {
+                        ty::GenericParamDefKind::Lifetime => {}
+                        _ => names.push(J::s(p.name.as_str())),
+                    }
+                }
+            }
+            o.set("generics", J::arr(names));
+        }
         // in test module? (cfg(test) code is not compiled under `cargo check` lib target)
         if tcx.is_mir_available(d) && tcx.hir_maybe_body_owned_by(ld).is_some() {
             let body = tcx.optimized_mir(d);
@@ -1000,6 +1022,26 @@ impl<'tcx> Cx<'tcx> {
                             r.set("path", J::s(&self.path(rd)));
                             r.set("key", J::s(&self.key(rd)));
                             r.set("full", J::s(&self.path_args(rd, inst.args)));
+                            {
+                                let mut ga = vec![];
+                                for a in inst.args.iter() {
+                                    if let Some(t) = a.as_type() {
+                                        ga.push(J::s(&self.p(t)));
+                                    } else if let Some(c) = a.as_const() {
+                                        match c.try_to_target_usize(tcx) {
+                                            Some(v) => ga.push(J::arr(vec![J::s("const"), J::n(v as i128)])),
+                                            None => match c.try_to_leaf() {
+                                                Some(si) => {
+                                                    let sz = si.size();
+                                                    ga.push(J::arr(vec![J::s("const"), J::big(si.to_bits(sz))]))
+                                                }
+                                                None => ga.push(J::arr(vec![J::s("constparam"), J::s(&self.p(c))])),
+                                            },
+                                        }
+                                    }
+                                }
+                                r.set("gargs", J::arr(ga));
+                            }
                             r.set("kind", J::s(match inst.def {
                                 ty::InstanceKind::Item(_) => "item",
                                 ty::InstanceKind::Intrinsic(_) => "intrinsic",
